@@ -3,11 +3,13 @@
 package c03
 
 import (
+	"bytes"
 	"fmt"
 	"math/rand"
 	"strings"
 
 	"github.com/google/pprof/profile"
+	"github.com/google/pprof/verif/internal/drv"
 	"github.com/google/pprof/verif/internal/harness"
 	"github.com/google/pprof/verif/internal/mon"
 	"github.com/google/pprof/verif/internal/ref"
@@ -729,6 +731,52 @@ func runMerge(c *harness.Ctx) harness.Result {
 			return fail("mutating the merged profile changed input %d (aliasing)", i)
 		}
 	}
+	// the same inputs given to the real driver as sources: the profile saved with -proto carries
+	// the same sums (profiles without any mapping excepted: the driver gives those a fake mapping)
+	if c.Index%6 == 0 {
+		allMapped := true
+		profs := map[string]*profile.Profile{}
+		var srcs []string
+		for i, p := range ps {
+			if len(p.Mapping) == 0 {
+				allMapped = false
+			}
+			name := fmt.Sprintf("p%d", i)
+			profs[name] = p
+			srcs = append(srcs, name)
+		}
+		if allMapped {
+			out, ui, rr := drv.Report(profs, srcs, map[string]bool{"proto": true, "addresses": true}, nil, nil, nil, nil)
+			if rr.Panic != "" {
+				return fail("pprof -proto over the %d inputs panicked: %s", len(ps), rr.Panic)
+			}
+			if rr.Err != nil {
+				return fail("pprof -proto over the %d inputs failed: %v %v", len(ps), rr.Err, ui.Errs)
+			}
+			q, err := profile.ParseData([]byte(out))
+			if err != nil {
+				return fail("pprof -proto output unparseable: %v", err)
+			}
+			// the reference is taken after one codec round trip of every input (proto3 cannot
+			// carry empty string label values or unit-less numeric zeros; C01 checks that step)
+			var norm []*profile.Profile
+			for _, p := range ps {
+				var b bytes.Buffer
+				p.WriteUncompressed(&b)
+				pn, err := profile.ParseUncompressed(b.Bytes())
+				if err != nil {
+					return res
+				}
+				norm = append(norm, pn)
+			}
+			wantd, _ := viewOf(norm...)
+			gotd, _ := viewOf(q)
+			if d := diffViews(wantd, gotd); d != "" {
+				return fail("pprof p0 p1 .. -proto: saved samples differ from the element-wise sum per (stack, labels):\n%s", d)
+			}
+			c.Stat("driver_merges", 1)
+		}
+	}
 	return res
 }
 
@@ -749,8 +797,8 @@ func init() {
 	harness.Register(&harness.Check{
 		ID:    "C03",
 		Level: "exploration",
-		Rule: "case = 1..4 profiles built from one constructed universe (colliding private ids, ASLR shifts, shuffled tables, unused entities) into which near-duplicate twins differing in exactly one attribute (29 attributes, cycled by case index), identity-preserving twins, string-vs-numeric label pairs and cancelling +/- pairs are injected; " +
-			"oracle = frames-view reference sum per (stack identity, label set) compared as a multiset with Merge's output, plus validity, header rules, input snapshots, pointer disjointness, permutation of inputs, Compact idempotence; " +
+		Rule: "case = 1..4 profiles built from one constructed universe (colliding private ids, a third of the profiles with gappy ids, ASLR shifts, shuffled tables, unused entities) into which near-duplicate twins differing in exactly one attribute (29 attributes, cycled by case index), identity-preserving twins, string-vs-numeric label pairs and cancelling +/- pairs are injected; " +
+			"oracle = frames-view reference sum per (stack identity, label set) compared as a multiset with Merge's output, plus validity, header rules, input snapshots, pointer disjointness, permutation of inputs, Compact idempotence and fixpoint; every sixth case the same inputs are also given to the real driver as sources and the profile saved with -proto must carry the same sums; " +
 			"non-trivial = at least 2 input samples; distinct = distinct (profile count, sample count, key count, twin attributes)",
 		Assumptions: []string{
 			"binary identity of a mapping = build id if present else file name, plus offset and size rounded up to 4 KiB (pprof's documented ASLR normalisation)",
